@@ -87,7 +87,7 @@ def reference_batch(items, single=False):
             return json.load(f)
 
 
-def build_pool(rng, n=250):
+def build_pool(rng, n=270):
     pool = []
     seeds = xonsh.xonsh_seeds()
     corp = [s for _, s in corpus.sample_statements(rng, 3, per_file=15) if len(s) < 600]
@@ -129,8 +129,23 @@ def build_pool(rng, n=250):
             add(s, version=v, tags=["gated"])
     for s in ["x = (1,\n", "if a:\n  b\n c\n", "f!(a", "with! a:", "x = 'abc", "a €", "f(a for a in b, c)", "1 +", "p'a' = 1\n", "$(ls", "x = $\n", "b'é'\n"]:
         add(s, tags=["error-seed"])
+    # parses that fail half-way through a construct whose helpers keep notes while they build it (debug fields, nested
+    # f-strings, macro capture, path literals): whatever a failed parse leaves behind must not reach the next one
+    for s in FAIL_INSIDE:
+        add(s, tags=["error-seed", "fstring"])
+    for _ in range(12):
+        src, _ = mutate.mutate(rng, FGen(rng).statement(), xonsh=False, nasty=False)
+        add(src, tags=["mutation", "fstring"])
+    for s in ['f"{y} and {z}"\n', "v = f'{a:>4}|{b}'\n", "print(f'{a}{b}{c}', f'{d!r}')\n", "t = f'''{m}\n{n:{w}}'''\n"]:
+        add(s, tags=["fstring"])
     rng.shuffle(pool)
     return pool[:n]
+
+
+FAIL_INSIDE = [
+    'f"{a=}{b!z}"\n', 'f"{p = }{}"\n', "x = f'{a=}{'\n", 'y = f"{a=:>{w}}{c!}"\n', "z = f'''{q=}\n{r = !r}{s t}'''\n", "f'{a=}' f'{b=}{'\n", "pf'{a=}/{b!x}'\n", "g!(f'{a=}', f'{b!z}')\n",
+    "r = f'{f\"{i=}\"}{j!q}'\n", "w = f'{k=}' b'x'\n", "$(echo f'{a=}{b!z}')\n", "with! m:\n  f'{a=}{'\n",
+]
 
 
 # ---------------------------------------------------------------------------------------------
@@ -508,7 +523,7 @@ FRESH_PROCESS_REPLAY = True  # a history only means something when it starts in 
 def search(rec, ctx):
     threading.stack_size(256 * 1024 * 1024)
     rng = ctx.rng("pool")
-    pool = build_pool(rng, 250 if not ctx.thorough else 400)
+    pool = build_pool(rng, 270 if not ctx.thorough else 420)
     items = [[it["src"], it["mode"], it["version"]] for it in pool]
     refs = []
     for a in range(0, len(items), 50):
